@@ -19,6 +19,8 @@
 //@ rwall R11 re⟦\b(?:self|vfs)\.(_[a-z_]+)\(\s*(?:&mut |&)?guard\b⟧ => ⟦\1(guard⟧
 //@ rwall R11 re⟦\btarget\.is_absolute\(\)⟧ => ⟦target.is_absolute2()⟧
 // R10 (unit-wide): the crate macro unwrap_or_false!(e) is `match e { Ok(v) => v, Err(_) => return false }` (src/core/result.rs:18; ASSUMED[macro-unwrap-or-false]: transcribed, not re-extracted)
+// R1 (unit-wide): `a != b` / `a == b` on path fields and locals of the entry builders
+//@ rwall R1 re⟦\b(self\.alt|self\.path|this\.alt|this\.path|dir|link|target) != (&?\w+(?:\.\w+)*)⟧ => ⟦\1.ne_p(\2)⟧
 //@ rwall R10 re⟦unwrap_or_false!\(((?:[^()]|\([^()]*\))*)\)⟧ => ⟦match \1 { Ok(v) => v, Err(_) => return false }⟧
 
 // ---- assumed contracts of the layers below (each is proved against the real body in its own unit)
@@ -45,6 +47,10 @@ impl PathBuf {
     pub fn mash<T: MashArg>(&self, p: T) -> (r: PathBuf) ensures r.comps() == Self::spec_mash(self.comps(), p.mc()) { unimplemented!() }
     #[verifier::external_body]
     pub fn is_absolute(&self) -> (b: bool) ensures self.abs_clean() ==> b { unimplemented!() }
+    // PathExt::has_prefix / has_suffix compare the TEXT of the paths (unit path_helpers); at the component level used here they are unspecified
+    #[verifier::external_body] pub fn ne_p<T: PathArg>(&self, o: T) -> (b: bool) ensures b == (self.comps() != o.pc()) { unimplemented!() }
+    #[verifier::external_body] pub fn has_prefix<T: PathArg>(&self, p: T) -> (b: bool) { unimplemented!() }
+    #[verifier::external_body] pub fn has_suffix<T: PathArg>(&self, p: T) -> (b: bool) { unimplemented!() }
     #[verifier::external_body]
     pub fn to_owned(&self) -> (r: PathBuf) ensures r@ == self@, r.abs_clean() == self.abs_clean(), r.comps() == self.comps() { unimplemented!() }
 }
@@ -68,7 +74,7 @@ impl MemfsEntryOpts {
                  follow: false, cached: false, kids: if self.dir { Some(Set::<Name>::empty()) } else { None } }
     }
 
-//@ item opts_mode file=src/sys/fs/memfs/entry.rs block="impl MemfsEntryOpts" fn=mode props=C01,C11,C10,C12
+//@ item opts_mode file=src/sys/fs/memfs/entry.rs block="impl MemfsEntryOpts" fn=mode props=C01,C11,C10,C12,C09
 //@ sig pub(crate) fn mode(mut self, mode: Option<u32>) -> Self
 //@ rw R2 + re⟦\bself\b⟧ => ⟦this⟧
 //@ rw R9 1 ⟦let mode = mode.unwrap_or(if⟧ => ⟦let mode = unwrap_or_u32(mode, if⟧
@@ -80,7 +86,7 @@ impl MemfsEntryOpts {
                 same_path(r.path, self.path), same_path(r.alt, self.alt), same_path(r.rel, self.rel),
 //@ body
 
-//@ item opts_dir file=src/sys/fs/memfs/entry.rs block="impl MemfsEntryOpts" fn=dir props=C01,C10,C12
+//@ item opts_dir file=src/sys/fs/memfs/entry.rs block="impl MemfsEntryOpts" fn=dir props=C01,C10,C12,C09
 //@ sig pub(crate) fn dir(mut self) -> Self
 //@ rw R2 + re⟦\bself\b⟧ => ⟦this⟧
 //@ ins start
@@ -92,7 +98,7 @@ impl MemfsEntryOpts {
                 same_path(r.path, self.path), same_path(r.alt, self.alt), same_path(r.rel, self.rel),
 //@ body
 
-//@ item opts_file file=src/sys/fs/memfs/entry.rs block="impl MemfsEntryOpts" fn=file props=C01,C10,C12
+//@ item opts_file file=src/sys/fs/memfs/entry.rs block="impl MemfsEntryOpts" fn=file props=C01,C10,C12,C09
 //@ sig pub(crate) fn file(mut self) -> Self
 //@ rw R2 + re⟦\bself\b⟧ => ⟦this⟧
 //@ ins start
@@ -124,7 +130,7 @@ impl MemfsEntryOpts {
             }),
 //@ body
 
-//@ item opts_build file=src/sys/fs/memfs/entry.rs block="impl MemfsEntryOpts" fn=build props=C01,C03,C10,C12
+//@ item opts_build file=src/sys/fs/memfs/entry.rs block="impl MemfsEntryOpts" fn=build props=C01,C03,C10,C12,C09
 //@ sig pub(crate) fn build(self) -> MemfsEntry
 //@ rw R2 + re⟦\bself\b⟧ => ⟦this⟧
 //@ rw R4 * ⟦Some(HashSet::new())⟧ => ⟦Some(NameSet::new())⟧
@@ -267,7 +273,7 @@ pub proof fn lemma_add_wf(s: St, e: EntryV)
 }
 //@ obligation lemma_add_wf props=C03
 
-//@ item _add file=src/sys/fs/memfs/vfs.rs block="impl Memfs" fn=_add props=C03,C01,C10,C12,C09,C06
+//@ item _add file=src/sys/fs/memfs/vfs.rs block="impl Memfs" fn=_add props=C03,C01,C10,C12,C09,C06,C20
 //@ sig pub(crate) fn _add(&self, guard: &mut MemfsGuard, entry: MemfsEntry) -> RvResult<PathBuf>
 //@ rw R8 * ⟦path == PathBuf::from(Component::RootDir.to_string()?)⟧ => ⟦path.is_root()⟧
 //@ ins before ⟦let path = entry.path_buf();⟧
